@@ -80,5 +80,14 @@ CHECKS.update({
             "text": "TextAtOffset / Ordered / CoversNonSpace hold on every class string <= 5 (6); the real tokenizer agrees on all of them in two concretisations; candidate ranges of 15 k+ repetitive pairs and seeded long noisy pairs satisfy the target-side bounds and convert to byte ranges inside the target.",
             "note": "the searchset range heuristics are checked against their contract, not transcribed."},
 })
+
+CHECKS.update({
+    "C09": {"technique": "TLA+ ownership spec V2Concurrent model-checked (NoRace, SeqEquivalent; sharing the corpus array with the diff library refuted) + concurrent Match histories validated by TLC against the sequential results (TraceV2 memo) + race detector as sensor for accesses inside the dependency",
+            "text": "8 (64) goroutines match 15 inputs that make them score the same documents concurrently; every concurrent result must equal the sequential one bit for bit; the diffcall hook shows whether corpus storage is handed to go-diff; data races are observed by the race detector.",
+            "note": "the write happens inside a dependency where no hook can sit; the race detector's report is the observation, the model supplies the ownership rule and the schedule."},
+    "C19": {"technique": "TLA+ spec V2Pool (token pool, WaitGroup, mutex-protected append; liveness) model-checked with three refuted variants + real CLI runs validated by TLC (TraceCLI.CLIReturn) against in-process Match",
+            "text": "TLC explores all interleavings of 3 files / 2 tasks: no lost append, bounded concurrency, no send on the closed channel, termination; the binary built from the current tree (and a -race build) runs over seeded trees x flags x -tasks and its stdout, JSON and exit status must be exactly what Match returns for the files' bytes.",
+            "note": "-tasks 0 is outside the domain; lock modes are not observable through hooks, lost appends are looked for with files that produce 1500+ matches and the -race build."},
+})
 for e in ENGINES:
     e["serves_properties"] = sorted(CHECKS)
